@@ -4,6 +4,7 @@
                           | A <n> <min|-> <max|-> <0|1 nullable> node^n
                           | O <n> <ap> <0|1 nullable> (<hex key> <0|1 optional> node)^n        ap ::= f | y | ti | tn | ts | tb | w<hex type name>
                           | F <hex type name without @> <0|1 nullable>
+                          | K <n> <k> <ap> <0|1 nullable> (<hex key> <0|1 optional> node)^n (<hex type name of the key> <0|1 optional> node)^k
                           | C <n> <0|1 nullable> <hex type name>^n            (a type choice)
                           | T <hex example> <hex type name> <0|1 nullable>    (a scalar with type: "@name")
                         alt ::= .. | r <hex type name> <0|1 nullable>
@@ -84,6 +85,27 @@ Fixpoint parse_snode (fuel : nat) (l : list bytes) : option (snode * list bytes)
         | Some (ms, rest) => Some (SObj ms ap (beqb nu [49%N]), rest)
         | None => None end
       | _, _ => None end
+    | [75%N] :: n :: k :: a :: nu :: r =>                                    (* K <n> <k> <ap> <nullable> member^n shortcut^k *)
+      match dec n, dec k, ap_of_tok a with
+      | Some cnt, Some kcnt, Some ap =>
+        let mems := (fix mems (j : nat) (l : list bytes) : option (list (bytes * (bool * snode)) * list bytes) :=
+                 match j with
+                 | O => Some ([], l)
+                 | S j' => match l with
+                           | hk :: o :: l1 =>
+                             match unhex_dash hk, parse_snode f l1 with
+                             | Some key, Some (x, l') =>
+                               match mems j' l' with Some (xs, l'') => Some ((key, (beqb o [49%N], x)) :: xs, l'') | None => None end
+                             | _, _ => None end
+                           | _ => None end
+                 end) in
+        match mems (N.to_nat cnt) r with
+        | Some (ms, rest) =>
+          match mems (N.to_nat kcnt) rest with
+          | Some (ks, rest') => Some (SObjK ms ks ap (beqb nu [49%N]), rest')
+          | None => None end
+        | None => None end
+      | _, _, _ => None end
     | [70%N] :: h :: nu :: r =>
       match unhex_dash h with Some name => Some (SRef name (beqb nu [49%N]), r) | None => None end
     | [67%N] :: n :: nu :: r =>                                                         (* C <n> <nullable> <hex name>^n *)
@@ -139,6 +161,20 @@ Fixpoint show_otree (t : otree) : bytes :=
     B"O(" ++ join [59%N] ([B"req=[" ++ join [44%N] (map hex req) ++ B"]"; B"ap=" ++ show_ap ap] ++ (if nu then [B"nullable"] else []) ++
                           [B"{" ++ join [44%N] (map (fun p => hex (fst p) ++ B":" ++ show_otree (snd p)) props) ++ B"}"]) ++ B")"
   | ORef n nu => B"F(" ++ join [59%N] ((if nu then [B"nullable"] else []) ++ [hex n]) ++ B")"
+  | OAp ap =>                                              (* the item written for the rule's type name, in the spelling of the other nodes *)
+    match ap with
+    | APType t => B"L(type=" ++ show_otype t ++ B")"
+    | APFormat _ => B"L(type=string)"
+    | APNull => B"L(enum=" ++ hex w_null_lit ++ B")"
+    | APArray => B"A([])"
+    | APObject => B"O(req=[];ap=f;{})"
+    | APRef r => B"F(" ++ hex r ++ B")"
+    | APFalse | APAny => B"?"
+    end
+  | OObjK props req extra nu =>
+    B"O(" ++ join [59%N] ([B"req=[" ++ join [44%N] (map hex req) ++ B"]"; B"ap=anyOf[" ++ join [44%N] (map show_otree extra) ++ B"]"] ++
+                          (if nu then [B"nullable"] else []) ++
+                          [B"{" ++ join [44%N] (map (fun p => hex (fst p) ++ B":" ++ show_otree (snd p)) props) ++ B"}"]) ++ B")"
   | OChoice names nu => B"Y(" ++ join [59%N] ((if nu then [B"nullable"] else []) ++
                                                [B"[" ++ join [44%N] (map (fun n => B"F(" ++ hex n ++ B")") names) ++ B"]"]) ++ B")"
   end.
